@@ -207,3 +207,32 @@ func (m *Mirror) List() []Spec {
 	sort.Slice(out, func(i, j int) bool { return out[i].Key() < out[j].Key() })
 	return out
 }
+
+// ReplayWithUnknownOverlap: a consumer took 'seed' at an unknown instant while
+// events were already queued for it; some prefix of 'events' is therefore
+// already reflected in the seed.  It returns true iff for SOME split point the
+// remaining events replay strictly (well-formed) over the seed and end in
+// 'final'.  Sound for any alignment, strict after it.
+func ReplayWithUnknownOverlap(name string, seed []Spec, types []string, objs []Spec, final []string) (bool, string) {
+	last := ""
+	for j := 0; j <= len(types); j++ {
+		m := NewMirror(name, seed)
+		m.Strict = true
+		ok := true
+		for i := j; i < len(types); i++ {
+			if msg := m.Apply(types[i], objs[i]); msg != "" {
+				ok = false
+				last = msg
+				break
+			}
+		}
+		if ok {
+			got := SpecIDs(m.List())
+			if SameIDs(got, final) {
+				return true, ""
+			}
+			last = fmt.Sprintf("replay from callback #%d gives %v", j+1, got)
+		}
+	}
+	return false, last
+}
